@@ -575,6 +575,16 @@ impl<'a> Peripheral<'a> {
                     let event = match telegram {
                         crate::fdl::Telegram::Data(t) => {
                             let data_ok = match t.is_response().unwrap() {
+                                _ if t.h.dsap != crate::consts::SAP_MASTER_DATA_EXCHANGE
+                                    || t.h.ssap != crate::consts::SAP_SLAVE_DATA_EXCHANGE =>
+                                {
+                                    log::warn!(
+                                        "Data-exchange response by #{} with unexpected SAPs: {t:?}",
+                                        self.address
+                                    );
+                                    false
+                                }
+
                                 crate::fdl::ResponseStatus::SapNotEnabled => {
                                     log::warn!(
                                 "Got \"SAP not enabled\" response from #{}, revalidating config...",
